@@ -120,7 +120,12 @@ def similarity(ctx, n):
         return bool(np.any((ext > 1e-9) & (ext < 1.2e-3)))
     for k in range(n):
         kind = ['rect', 'para', 'tri'][k % 3]
-        Pi, ni, Pj, nj = geomgen.detached_pair(ctx.rng, kind)
+        if k % 4 == 3:
+            # patches with a common edge (the Nusselt-analogue branch of universal_form_factor)
+            Pi, ni, Pj, nj = geomgen.shared_edge_pair(ctx.rng, float(ctx.rng.uniform(40, 100)))[:4]
+            ctx.count('similarity.shared_edge_pairs')
+        else:
+            Pi, ni, Pj, nj = geomgen.detached_pair(ctx.rng, kind)
         base = universal.universal_form_factor(Pi.copy(), ni.copy(), ffref.area(Pi), Pj.copy(), nj.copy())
         R = geomgen.rand_rotation(ctx.rng)
         t = ctx.rng.uniform(-50, 50, size=3)
